@@ -228,6 +228,8 @@ class Ctx:
         self.escalated = False
         self.tie = None
         self.proof = None
+        try: os.remove(os.path.join(VERIF, 'replays', '%s-%s-seed%d.json' % (pid, tier, seed)))
+        except OSError: pass
     # budgets
     def n(self, quick, thorough):
         n = thorough if (self.tier == "thorough" or self.escalated) else quick
